@@ -151,13 +151,6 @@ def run(ctx):
     with cf.ThreadPoolExecutor(W) as ex:
         allres = list(ex.map(val, traces + [g[1] for g in guards]))
     res = allres[:len(traces)]
-    for g, (p, ok, r, at) in zip(guards, allres[len(traces):]):
-        lines = [ln for ln, cls in lib.unexplained(r) if g[3] is None or cls == g[3]]
-        if g[2] not in lines:
-            raise lib.ModelFailure("vacuity guard: Trace_Projectors accepted a corrupted trace (%s, line %d; reported %s)" % (g[0], g[2], lines[:5]))
-        os.remove(p)
-    if guards:
-        ctx.notes.append("vacuity guards: Trace_Projectors rejects %d corrupted copies of a recorded block at the altered line (%s)" % (len(guards), ", ".join(g[0] for g in guards)))
     ctx.notes.append("trace validation: %d TLC runs (+ %d guards), %.0f s" % (len(traces), len(guards), time.time() - t0))
     known_ids = {k["id"] for k in ctx.known}
     nblocks = nhist = nbins = nevents = 0
@@ -216,6 +209,15 @@ def run(ctx):
             classes = sorted({cls for _, cls in newbad})
             ctx.violation("%d recorded lines not explained by Trace_Projectors (%s); first: line %d of block %s: %s" % (
                 len(newbad), ", ".join(classes), ln0 - blk[0][0], c0.get("name", "?"), json.dumps(brief)[:260]), rp)
+    # the vacuity guards (only meaningful when the recorded block itself was accepted)
+    if not ctx.violations:
+        for g, (p, ok, r, at) in zip(guards, allres[len(traces):]):
+            lines = [ln for ln, cls in lib.unexplained(r) if g[3] is None or cls == g[3]]
+            if g[2] not in lines:
+                raise lib.ModelFailure("vacuity guard: Trace_Projectors accepted a corrupted trace (%s, line %d; reported %s)" % (g[0], g[2], lib.unexplained(r)[:5]))
+            os.remove(p)
+        if guards:
+            ctx.notes.append("vacuity guards: Trace_Projectors rejects %d corrupted copies of a recorded block at the altered line (%s)" % (len(guards), ", ".join(g[0] for g in guards)))
     # ------------------------------------------------------------------ 4. the model checks
     r = fut_main.result()
     ctx.mc_must_pass(r, "Projectors: theorems on every piece + frame conditions along all histories (%s)" % ("depth 3, N<=2, 2 classes" if q else "depth 3, N<=3, 5 classes"), "MC_Projectors")
